@@ -1,7 +1,7 @@
 (** Generic facts about [prefixb], [find_sub] (Python str.find) and [count_sub] (Python str.count)
     used by the C16 proofs. *)
 From Coq Require Import List Bool NArith Arith Lia.
-From DV Require Import Common.Str Phoenix.Model.
+From DV Require Import Common.Str Phoenix.Model Phoenix.Spec.
 Import ListNotations.
 
 (** ------------------------------------------------------------------ list slicing helpers *)
@@ -19,9 +19,6 @@ Lemma firstn_app_plus {A} (a b : list A) n : firstn (length a + n) (a ++ b) = a 
 Proof. induction a as [|x a IH]; [reflexivity | cbn [length Nat.add firstn app]; now rewrite IH]. Qed.
 
 (** ------------------------------------------------------------------ one-character tests *)
-
-(** [lacks c l]: the character [c] does not occur in [l] *)
-Definition lacks (c : N) (l : str) : bool := forallb (fun x => negb (N.eqb x c)) l.
 
 Lemma lacks_app c a b : lacks c (a ++ b) = lacks c a && lacks c b.
 Proof. apply forallb_app. Qed.
@@ -160,11 +157,6 @@ Qed.
 
 (** ------------------------------------------------------------------ delimiters made of quote characters *)
 
-Definition QUOTE : N := 34%N.
-
-(** [isq d]: a non-empty string of double-quote characters (both dialects' delimiters) *)
-Definition isq (d : str) : Prop := d <> [] /\ Forall (fun c => c = QUOTE) d.
-
 Lemma isq_D1 : isq DELIM1.
 Proof. split; [discriminate | repeat constructor]. Qed.
 Lemma isq_D2 : isq DELIM2.
@@ -187,9 +179,6 @@ Proof.
   intros [_ Hall] Hc. induction Hall as [|x l Hx _ IH]; [reflexivity|].
   rewrite lacks_cons, IH, andb_true_r. subst x. apply negb_true_iff, N.eqb_neq. congruence.
 Qed.
-
-(** [qfree l]: no double-quote character in [l] *)
-Definition qfree (l : str) : bool := lacks QUOTE l.
 
 Lemma prefixb_q_nonq d c X : isq d -> N.eqb c QUOTE = false -> prefixb d (c :: X) = false.
 Proof.
